@@ -26,15 +26,71 @@ impl EnabledCompressionEncodings {
         let a = |i: int| match self.inner@[i] { Some(e) => ascii_bytes(enc_name(e)) + seq![44u8], None => Seq::<u8>::empty() };
         a(0) + a(1) + a(2) + ascii_bytes("identity"@)
     }
-    // A-tonic-cfg-01: is_enabled / is_empty / into_accept_encoding_header_value (Kani-complete: kani::cfg_*)
+    // is_enabled / is_empty: callee contracts discharged on the real code by the complete Kani harnesses kani::cfg_is_enabled /
+    // kani::cfg_is_empty (all slot states x all encodings)
     #[verifier::external_body]
     pub fn is_enabled(&self, encoding: CompressionEncoding) -> (r: bool) ensures r == self.enabled(encoding) { unimplemented!() }
     #[verifier::external_body]
     pub fn is_empty(&self) -> (r: bool) ensures r == self.none_enabled() { unimplemented!() }
+}
+// ---- into_accept_encoding_header_value: `self.inner.into_iter().flatten()` (R17) is the Some-entries in slot order ----
+pub open spec fn flat(s: Seq<Option<CompressionEncoding>>) -> Seq<CompressionEncoding> decreases s.len() {
+    if s.len() == 0 { Seq::empty() } else { match s.last() { Some(x) => flat(s.drop_last()).push(x), None => flat(s.drop_last()) } }
+}
+// A-core-21: array::IntoIter + Iterator::flatten over Options yields the Some values in order
+#[verifier::external_body]
+pub fn verif_flatten_options(a: [Option<CompressionEncoding>; 3]) -> (r: Vec<CompressionEncoding>) ensures r@ == flat(a@) { unimplemented!() }
+// A-std-str-05: str::as_bytes of an ASCII string is its characters as bytes
+pub open spec fn is_ascii(s: Seq<char>) -> bool { forall|i: int| 0 <= i < s.len() ==> (#[trigger] s[i] as u32) < 128 }
+#[verifier::external_body]
+pub fn verif_ascii_bytes(s: &str) -> (r: &[u8]) ensures is_ascii(s@) ==> r@ == ascii_bytes(s@) { unimplemented!() }
+impl BytesMut {
+    // A-bytes-26: BytesMut::new is empty; put_u8 / put_slice append
     #[verifier::external_body]
-    pub fn into_accept_encoding_header_value(self) -> (r: Option<http::HeaderValue>)
-        ensures r is None <==> self.none_enabled(), r matches Some(v) ==> v@ == self.accept_value()
-    { unimplemented!() }
+    pub fn new() -> (r: BytesMut) ensures r@ == Seq::<u8>::empty(), r.reserve_bound@ < 0 { unimplemented!() }
+    #[verifier::external_body]
+    pub fn put_u8(&mut self, v: u8) ensures final(self)@ == old(self)@.push(v), final(self).reserve_bound == old(self).reserve_bound { unimplemented!() }
+    #[verifier::external_body]
+    pub fn put_slice(&mut self, s: &[u8]) ensures final(self)@ == old(self)@ + s@, final(self).reserve_bound == old(self).reserve_bound { unimplemented!() }
+}
+impl HasBytes for BytesMut { open spec fn bytes_view(&self) -> Seq<u8> { self@ } }
+#[verifier::external_body]
+pub fn verif_bytes_lit(s: &'static str) -> (r: &'static [u8]) ensures r@ == ascii_bytes(s@) { unimplemented!() }
+pub open spec fn names_of(s: Seq<CompressionEncoding>) -> Seq<u8> decreases s.len() {
+    if s.len() == 0 { Seq::<u8>::empty() } else { names_of(s.drop_last()) + ascii_bytes(enc_name(s.last())) + seq![44u8] }
+}
+pub proof fn lemma_enc_name_bytes(e: CompressionEncoding)
+    ensures is_ascii(enc_name(e)), legal_value(ascii_bytes(enc_name(e))), ascii_bytes(enc_name(e)).len() > 0,
+        is_ascii("identity"@), legal_value(ascii_bytes("identity"@)),
+{
+    reveal_strlit("gzip"); reveal_strlit("deflate"); reveal_strlit("zstd"); reveal_strlit("identity");
+    assert(ascii_bytes("gzip"@) =~= seq![103u8, 122, 105, 112]);
+    assert(ascii_bytes("deflate"@) =~= seq![100u8, 101, 102, 108, 97, 116, 101]);
+    assert(ascii_bytes("zstd"@) =~= seq![122u8, 115, 116, 100]);
+    assert(ascii_bytes("identity"@) =~= seq![105u8, 100, 101, 110, 116, 105, 116, 121]);
+}
+pub proof fn lemma_names_legal(s: Seq<CompressionEncoding>)
+    ensures legal_value(names_of(s)), names_of(s).len() == 0 <==> s.len() == 0
+    decreases s.len()
+{
+    if s.len() > 0 { lemma_names_legal(s.drop_last()); lemma_enc_name_bytes(s.last()); }
+}
+// the fold over the flattened slots is the slot-wise definition the negotiation clauses use
+pub proof fn lemma_accept_value(c: EnabledCompressionEncodings)
+    ensures names_of(flat(c.inner@)) + ascii_bytes("identity"@) == c.accept_value(), flat(c.inner@).len() == 0 <==> c.none_enabled()
+{
+    let s = c.inner@;
+    assert(s.len() == 3);
+    let s2 = s.drop_last(); let s1 = s2.drop_last(); let s0 = s1.drop_last();
+    assert(s0.len() == 0);
+    assert(flat(s0) =~= Seq::empty());
+    assert(s1.last() == s[0] && s2.last() == s[1] && s.last() == s[2]);
+    let a = |i: int| match c.inner@[i] { Some(e) => ascii_bytes(enc_name(e)) + seq![44u8], None => Seq::<u8>::empty() };
+    assert(names_of(flat(s0)) =~= Seq::<u8>::empty());
+    assert(names_of(flat(s1)) =~= a(0)) by { if s[0] is Some { assert(flat(s1).drop_last() =~= flat(s0)); } }
+    assert(names_of(flat(s2)) =~= a(0) + a(1)) by { if s[1] is Some { assert(flat(s2).drop_last() =~= flat(s1)); } }
+    assert(names_of(flat(s)) =~= a(0) + a(1) + a(2)) by { if s[2] is Some { assert(flat(s).drop_last() =~= flat(s2)); } }
+    assert(names_of(flat(s)) + ascii_bytes("identity"@) =~= c.accept_value());
 }
 // A-std-split-01: split_by_comma(s) = s.split(',').map(str::trim): the comma separated, trimmed tokens of s, in order;
 // find_map answers f's first Some over them
@@ -172,6 +228,25 @@ def build():
                 && (forall|e: CompressionEncoding| !(wanted(map@) == Some(ascii_bytes(enc_name(e))) && enabled_encodings.enabled(e))) ==> r is Err''', ['C05']),
          ])
     u.fn(C, 'into_header_value', within='impl CompressionEncoding', ensures=[Clause('value', 'r@ == ascii_bytes(enc_name(self))', ['C05', 'C03'])])
+    u.close('}')
+
+    u._emit('impl EnabledCompressionEncodings {'); u._open_header = 'impl EnabledCompressionEncodings {'
+    u.fn(C, 'into_accept_encoding_header_value', within='impl EnabledCompressionEncodings',
+         body_edits=[lambda t: t.sub_code('R17', r'self\.inner\.into_iter\(\)\.flatten\(\)', 'verif_flatten_options(self.inner)'),
+                     lambda t: t.sub_code('R17', r'encoding\.as_str\(\)\.as_bytes\(\)', 'verif_ascii_bytes(encoding.as_str())'),
+                     lambda t: t.sub_code('R15', r'b"([a-z]+)"', r'verif_bytes_lit("\1")')],
+         body_start='        proof { lemma_accept_value(self); lemma_names_legal(flat(self.inner@)); }',
+         loops={0: dict(iter='it', invariant=[
+             'it.seq() == flat(self.inner@)',
+             'value@ == names_of(flat(self.inner@).take(it.index@ as int))',
+             'value.reserve_bound@ < 0'])},
+         hints=[('before', 'value.put_slice(verif_ascii_bytes', '            proof { lemma_enc_name_bytes(encoding); assert(it.seq().take(it.index@ + 1).drop_last() =~= it.seq().take(it.index@ as int)); }'),
+                ('before', 'if value.is_empty()', '        proof { assert(flat(self.inner@).take(flat(self.inner@).len() as int) =~= flat(self.inner@)); lemma_enc_name_bytes(CompressionEncoding::Gzip); }'),
+                ('before', 'Some(http::HeaderValue::from_maybe_shared', '        proof { assert(legal_value(value@)); }')],
+         ensures=[
+             Clause('A1_none_iff_nothing_is_enabled', 'r is None <==> self.none_enabled()', ['C05']),
+             Clause('A2_advertises_exactly_the_enabled_encodings_then_identity', 'r matches Some(v) ==> v@ == self.accept_value()', ['C05']),
+         ])
     u.close('}')
 
     take = 'old(decompressed_buf)@.take(len as int)'
